@@ -568,6 +568,7 @@ type c01Divergence struct {
 	RestartedPrev    bool   `json:"restarted_in_previous_epoch"`
 	BlocklistPrev    bool   `json:"blocklist_changed_in_previous_epoch"`
 	BlocklistBefore  bool   `json:"blocklist_changed_before"`
+	Stale            string `json:"unchanged_next_epoch_validators"` // source | replica | none
 	Signature        string `json:"signature"`
 }
 
@@ -685,8 +686,18 @@ func c01RunReplica(p c01Proto, rp c01Replica, src *c05Chain, blocks []*block.Blo
 				d.BlocklistBefore = true
 			}
 		}
-		d.Signature = fmt.Sprintf("fields=%s;keys=%s;epoch_end=%v;restarted_in_epoch=%v;after_restart=%v;rotation=%v;restarted_in_prev_epoch=%v;blocklist_changed_before=%v",
-			strings.Join(d.Fields, ","), strings.Join(d.Keys, ","), d.EpochEnd, d.RestartedInEpoch, after, d.Rotation, d.RestartedPrev, d.BlocklistBefore)
+		// which side still announces its current validators for the next epoch (did not recompute)
+		d.Stale = "none"
+		if mine != nil {
+			switch {
+			case fmt.Sprint(obs[i].NewEpoch) == fmt.Sprint(obs[i].NextVals) && fmt.Sprint(mine.NewEpoch) != fmt.Sprint(mine.NextVals):
+				d.Stale = "source"
+			case fmt.Sprint(mine.NewEpoch) == fmt.Sprint(mine.NextVals) && fmt.Sprint(obs[i].NewEpoch) != fmt.Sprint(obs[i].NextVals):
+				d.Stale = "replica"
+			}
+		}
+		d.Signature = fmt.Sprintf("fields=%s;keys=%s;epoch_end=%v;restarted_in_epoch=%v;after_restart=%v;rotation=%v;restarted_in_prev_epoch=%v;blocklist_changed_before=%v;unchanged_next_epoch_validators=%s",
+			strings.Join(d.Fields, ","), strings.Join(d.Keys, ","), d.EpochEnd, d.RestartedInEpoch, after, d.Rotation, d.RestartedPrev, d.BlocklistBefore, d.Stale)
 		return d
 	}
 	junkNonce := uint32(1 << 30)
